@@ -11,7 +11,7 @@ __all__ = (
 
 import sys
 from collections.abc import Awaitable, Callable, Coroutine, Generator
-from concurrent.futures import Future
+from concurrent.futures import Future, InvalidStateError
 from contextlib import (
     AbstractAsyncContextManager,
     AbstractContextManager,
@@ -272,14 +272,22 @@ class BlockingPortal:
             future.set_running_or_notify_cancel()
         except BaseException as exc:
             if not future.cancelled():
-                future.set_exception(exc)
+                try:
+                    future.set_exception(exc)
+                except InvalidStateError:
+                    # The future was cancelled from another thread in the meantime
+                    pass
 
             # Let base exceptions fall through
             if not isinstance(exc, Exception):
                 raise
         else:
             if not future.cancelled():
-                future.set_result(retval)
+                try:
+                    future.set_result(retval)
+                except InvalidStateError:
+                    # The future was cancelled from another thread in the meantime
+                    pass
         finally:
             scope = None  # type: ignore[assignment]
 
